@@ -26,10 +26,13 @@ import (
 func init() {
 	hx.Register(&hx.Prop{
 		ID: "C11",
-		Rule: "exhaustive: a skeleton document with every position the ten resolvers visit (≈60 positions: the nine component kinds, nested response headers/links/examples, " +
-			"parameter and media-type schemas, callbacks, path items, operations) × 16 reference spellings (relative, ./, ../ escape, sub-directory, absolute, file://, http, https, " +
-			"scheme-relative, same path as the root on another host, whole-file and fragment forms, missing target) × 3 entry points × both switch settings; plus cross-document shapes " +
-			"(chains, cycles, element files with '#'-references, unwalked positions) and a seeded random stream of multi-file universes. " +
+		Rule: "exhaustive: a skeleton document with every position ResolveRefsIn, the ten resolvers and resolveContentRefs/resolveExampleRefs visit (table WalkSites: the nine component " +
+			"collections incl. links, response headers/links, examples of parameters, headers and media types, content of parameters and headers, encoding headers, schemas, callbacks, path items, " +
+			"operations) × 16 reference spellings (relative, ./, ../ escape, sub-directory, absolute, file://, http, https, " +
+			"scheme-relative, same path as the root on another host, whole-file and fragment forms, missing target) × 3 entry points × both switch settings (quick: a quarter of the grid); " +
+			"enumerated families: $ref path items whose target is itself a $ref (target resolved / sorting later / in progress), a reference text in progress for one kind and met under another kind " +
+			"(6 shapes × every sub-position), targets only the raw re-read reaches; hand-made cross-document shapes (corpus) and a seeded random stream of multi-file universes " +
+			"(element files are also read through references of other kinds). Every case is loaded twice: recording reader directly and behind openapi3.URIMapCache. " +
 			"Non-trivial = the model reports a branch other than the default (a read, a denial, a cache hit, a re-read, an in-progress skip, …).",
 		Exhaustive: true,
 		Gen:        genC11,
@@ -39,8 +42,8 @@ func init() {
 		TimeoutMs:  10000,
 		Assumptions: []string{
 			"reference texts are parsed by net/url on the harness side (scheme, host, path, fragment are inputs of the model)",
-			"fragment references target documents, whole-file references target element files (or documents read as an element); deep fragments never cross a $ref node",
-			"position tables and visiting order of the resolvers are encoded in the harness (c11Slots/c11OrderKey) and validated by the comparison of read sequences",
+			"fragment references target documents, whole-file references target element files (of the same or another kind; a callback reference only a callback file) or documents read as an element; deep fragments never cross a $ref node; no null elements; inline path items are non-empty",
+			"position tables and visiting order of the resolvers are encoded in the harness (c11ChildKind/c11OrderKey), written after the regenerated table WalkSites (obligation walk_sites_as_modelled) and validated by the comparison of read sequences",
 		},
 	})
 }
@@ -710,6 +713,11 @@ func cmpC11(c hx.Case, impl any, reply map[string]any) hx.Verdict {
 		v.IS = false
 		v.Detail = why + fmt.Sprintf(" (reads %v)", ilog)
 	}
+	if !v.IS && os.Getenv("C11_DEBUG") == "2" {
+		g, _ := c["g"].(map[string]any)
+		b, _ := json.Marshal(g)
+		fmt.Fprintf(os.Stderr, "NOTSPEC %s\n  g=%s\n", v.Detail, b)
+	}
 	return v
 }
 
@@ -1230,6 +1238,12 @@ func c11Handmade() map[string]hx.Case {
 		c11Doc("/r/a/b/d.json", kid(c11NewEl("header", "x.json"), "components", "headers", "H")),
 		c11Elem("/r/a/b/x.json", "header", kid(c11NewEl("schema", "x.json"), "schema")),
 		c11Elem("/r/a/x.json", "schema"))
+	// F-C11-1 (d): a path item loaded from a file that is empty as a path item never counts as resolved (isEmpty), so the
+	// second walk (here of R, a '#'-reference to the callback H) resolves it again, against the root's location
+	out["foreign_base_empty_pathitem_second_walk"] = mk(true, "file",
+		c11Doc("/r/a/root.json", kid(c11NewEl("callback", "b/cb.json"), "components", "callbacks", "H"), kid(c11NewEl("callback", "#/components/callbacks/H"), "components", "callbacks", "R")),
+		c11Elem("/r/a/b/cb.json", "callback", kid(c11NewEl("pathItem", "e.json"), "evt")),
+		c11Elem("/r/a/b/e.json", "header"), c11Elem("/r/a/e.json", "pathItem"))
 	out["dangling_hash_ref_reread_off"] = mk(false, "file",
 		c11Doc("/r/a/root.json", kid(c11NewEl("schema", "#/components/schemas/Nope"), "components", "schemas", "A")))
 	return out
@@ -1266,8 +1280,8 @@ func genC11(ctx *hx.Ctx, emit func(hx.Case)) {
 		for si, sp := range spellings {
 			for ei, entry := range entries {
 				for _, allowed := range []bool{false, true} {
-					if !ctx.Thorough() && (pi+si+ei)%3 != 0 && !(allowed == false && sp.fragment && si >= 12) {
-						continue // quick tier: a third of the grid (all of the remote fragment spellings with the switch off)
+					if !ctx.Thorough() && (pi+si+ei)%4 != 0 && !(allowed == false && sp.fragment && si >= 12) {
+						continue // quick tier: a quarter of the grid (all of the remote fragment spellings with the switch off)
 					}
 					root := c11_deepCopy(skel).(map[string]any)
 					var text string
@@ -1315,7 +1329,7 @@ func genC11(ctx *hx.Ctx, emit func(hx.Case)) {
 	c11GenRereads(ctx, emit)
 	c11GenOtherKind(ctx, emit)
 	// random stream
-	n := 2500
+	n := 2200
 	if ctx.Thorough() {
 		n = 30000
 	}
